@@ -45,7 +45,7 @@ def context(obs):
     return f"{first['kind']}-{'during' if during else 'after'}-{last}"
 
 
-def make_sweep(P, oracle, *, plans, kinds=KINDS, decisions=DECISIONS, two=False, faults=False, re_kwargs=None, extra=None, goals_fn=None, ctx=False):
+def make_sweep(P, oracle, *, plans, kinds=KINDS, decisions=DECISIONS, two=False, faults=False, re_kwargs=None, extra=None, goals_fn=None, ctx=False, updates=0, signal="sig"):
     """Returns the harness function.  oracle(obs, case) -> list of tags."""
     Ts = [plan_T(p, re_kwargs=re_kwargs) for p in plans]
 
@@ -78,9 +78,16 @@ def make_sweep(P, oracle, *, plans, kinds=KINDS, decisions=DECISIONS, two=False,
                 else:
                     fail_status = j
                 case["fault"] = ("call" if f == 1 else "status", j)
+        upd = []
+        if updates:
+            # signal updates at solver-chosen loop steps (the same spare symbolic integers as the fault position, which is unused here)
+            for ui, sym in enumerate([fk, fj][:updates]):
+                us = fork_range(sym, 0, T + 2)
+                upd.append(dict(step=us, signal=signal, value=100 + ui))
+            case["updates"] = [u["step"] for u in upd]
         with notrace():
             obs = sweep.run_case(corpus.CORPUS[plans[pi]], reqs, decisions[di], fail_call=fail_call, fail_status=fail_status,
-                                 re_kwargs=re_kwargs, **(extra or {}))
+                                 re_kwargs=re_kwargs, updates=upd, **(extra or {}))
             case["ctx"] = context(obs)
             tags = oracle(obs, case)
             if goals_fn:
